@@ -522,7 +522,7 @@ def _derived_from(fn: Func, bounds: set, guard_toks: set) -> bool:
 
 
 def _mask_obligation(prog, res, fn, pa, node, name) -> None:
-    _generic_guard(prog, res, fn, pa, node, f"{short(node, 60)} (character keep-mask over the text)", set())
+    _generic_guard(prog, res, fn, pa, node, f"{short(node, 60)} # character keep-mask over the text", set())
 
 
 def _whitespace_only(prog, fn, pa, node, bounds: set) -> bool:
